@@ -26,6 +26,7 @@ type MessageVerifOddities struct {
 	W      uint16
 	MyName uint32 `mavname:"odd_NAME"`
 	E      VerifE `mavenum:"int32"`
+	P      uint64 `mavenum:"uint8"` // an enum carried by the plain uint64 type
 	Ext    [1]uint16 `mavext:"true"`
 }
 
@@ -48,18 +49,20 @@ func verifHarness_C03_user(v2 int) {
 	seed = append(seed, 1)
 	seed = append(seed, []byte("char ch char s1 ")...)
 	seed = append(seed, 1)
+	seed = append(seed, []byte("uint8_t p ")...)
 	c := verifCrcFold(0xFFFF, seed)
 	verifAssert(rw.CRCExtra() == byte(c&0xFF)^byte(c>>8), "C03/U/crc-extra-is-spec-value")
 	one, w, name, e, ext := verifNondetU8(), verifNondetU16(), verifNondetU32(), verifNondetU64(), verifNondetU16()
 	chb, s1b := verifNondetU8(), verifNondetU8()
+	pv := verifNondetU64()
 	verifAssume(chb != 0 && s1b != 0 && ext != 0)
 	m := &MessageVerifOddities{One: [1]uint8{one}, Ch: string([]byte{chb}), S1: string([]byte{s1b}), W: w, MyName: name,
-		E: VerifE(e), Ext: [1]uint16{ext}}
+		E: VerifE(e), P: pv, Ext: [1]uint16{ext}}
 	var exp []byte
 	exp = append(exp, verifLE(uint64(name), 4)...)
 	exp = append(exp, verifLE(e&0xFFFFFFFF, 4)...)
 	exp = append(exp, verifLE(uint64(w), 2)...)
-	exp = append(exp, one, chb, s1b)
+	exp = append(exp, one, chb, s1b, byte(pv))
 	if v2 == 1 {
 		exp = append(exp, verifLE(uint64(ext), 2)...)
 		// ext != 0 is assumed, so at most the high byte of ext is stripped
@@ -70,5 +73,12 @@ func verifHarness_C03_user(v2 int) {
 	raw := rw.Write(m, v2 == 1)
 	verifObserveBytes("C03/U/payload", raw.Payload)
 	verifAssert(verifEqBytes(raw.Payload, exp), "C03/U/payload-is-spec-layout")
+	// and it reads back (enum masked to its wire width)
+	back, err := rw.Read(raw, v2 == 1)
+	verifAssert(err == nil, "C03/U/reads-back")
+	if err == nil {
+		g := back.(*MessageVerifOddities)
+		verifAssert(g.P == pv&0xFF && g.W == w && g.MyName == name && g.One[0] == one && uint64(g.Ext[0]) == verifIteU64(v2 == 1, uint64(ext), 0), "C03/U/read-back-values")
+	}
 	verifReach("C03/U")
 }
